@@ -13,7 +13,8 @@ public interface) of every metamodel that was *not* the target of the event must
 
 Clauses
   build-contains-exactly-accepted-input      view(build) == expected_view(description of the inputs so far)
-  build-equals-fresh-loader-build            serialize(build) == serialize(build of a fresh loader fed the same inputs)
+  build-equals-fresh-loader-build            serialize(build) == serialize(build of a fresh loader fed the same inputs), and
+                                             every attribute read has the same Python type and value as in that build
   unchanged-by-mutation-of-another           a mutation of one metamodel changed the snapshot of another
   unchanged-by-later-input / unchanged-by-later-build
 """
@@ -69,8 +70,15 @@ def scenario(name):
             'rows-cut-assoc-class': ('assoc-class', ['UNIQUE_ID'], ('MC', '1'), 7),
             'rows-cut-chain': ('chain', ['REAL'], ('MC', '1'), 5),
             'rows-cut-double-key': ('two-assocs', ['INTEGER', 'STRING'], ('MC', '1C'), 4),
+            'rows-cut-two-identifiers': ('two-identifiers', ['UNIQUE_ID', 'UNIQUE_ID', 'UNIQUE_ID', 'UNIQUE_ID'], ('MC', '1'), 5),
+            'rows-cut-crossed-key': ('crossed-key', ['INTEGER', 'STRING'], ('MC', '1C'), 4),
         }[name]
-        full = C01.rel_desc(shape, kt, cards[0], cards[1], 2, 'all', 1)
+        if shape == 'two-identifiers':        # two associations into one class through different identifiers, equal referential names
+            full = C01.several_desc(1, 1, kt, 'equal', 0, 0, cards[0], cards[1], 1, 'all', 1)
+        elif shape == 'crossed-key':          # composite key whose referential attributes are spelled like the other identifying attribute
+            full = C01.layout_desc('simple', kt, [1, 0], [1, 0], [0, 1], 'K', cards[0], cards[1], 1, 'all', 1)
+        else:
+            full = C01.rel_desc(shape, kt, cards[0], cards[1], 2, 'all', 1)
         rows = _row_statements(full)
         if name == 'rows-cut-referred-late':      # the referring rows come first, the rows they refer to in the second input
             keep = set(i for i, r in enumerate(full['rows']) if r['kind'] == 'S')
@@ -101,11 +109,99 @@ def scenario(name):
         full = C01.inferred_desc(['INTEGER', 'STRING', 'UNIQUE_ID'], 2)
         rows = _row_statements(full)
         return '\n'.join(rows), full, '\n'.join(G.sql_class(c) for c in full['classes']), full
+    if name in RETYPED:
+        return retyped_scenario(*RETYPED[name])
     raise ValueError(name)
 
 
+# Rows that arrive before the schema of their class: the first input holds only INSERT statements (the file format then
+# names positional attributes _0, _1, ... and types every attribute after the literal of the first row: digits INTEGER,
+# digits.digits REAL, '...' STRING, "..." UNIQUE_ID), the second input declares the classes -- with other attribute
+# names, a BOOLEAN where the rows carry 0 / 1 (the format writes booleans as numbers), a REAL where the rows carry whole
+# numbers, more attributes and another attribute order than the named rows mention, and possibly an association and
+# identifiers over the re-typed attributes.  A build after the first input sees the inferred classes, a build after the
+# second one the declared classes holding the same rows read with the declared types.
+#
+#   spec: {kind: ([declared name, declared type, literal type or None (= attribute no row mentions)], ...)}, rows in
+#   declared types, named: {kind: order in which the INSERT statements name the attributes (positions) or None},
+#   assoc: optional (referring kind, referring positions, referred kind, referred positions)
+
+def _literal_view(v, declared, literal):
+    """The value a literal written for `declared` has when read as `literal` type (only 0/1 -> BOOLEAN, whole -> REAL)."""
+    if v is None or declared == literal:
+        return v
+    if (declared, literal) in (('BOOLEAN', 'INTEGER'), ('REAL', 'INTEGER')):
+        return int(v)
+    raise ValueError((declared, literal))
+
+
+def retyped_scenario(spec, rows, named, assoc):
+    classes2 = [dict(kind=k, attrs=[[n, t] for n, t, _ in spec[k]]) for k in sorted(spec)]
+    desc2 = dict(classes=classes2, assocs=[], ids=[], rows=[dict(kind=k, values=list(v)) for k, v in rows], links=[])
+    if assoc:
+        sk, sp, tk, tp = assoc
+        desc2['assocs'].append(dict(rel_id='R1', source=dict(kind=sk, keys=[spec[sk][p][0] for p in sp], many=True, cond=True, phrase=''),
+                                    target=dict(kind=tk, keys=[spec[tk][p][0] for p in tp], many=False, cond=True, phrase='')))
+        desc2['ids'].append(dict(kind=tk, name='I1', attrs=[spec[tk][p][0] for p in tp]))
+        # links by the values the rows carry (every referring row of RETYPED matches exactly one referred row)
+        si = -1
+        for i, (k, v) in enumerate(rows):
+            if k != sk:
+                continue
+            si += 1
+            ti = -1
+            for k2, v2 in rows:
+                if k2 != tk:
+                    continue
+                ti += 1
+                if all(v[a] == v2[b] for a, b in zip(sp, tp)):
+                    desc2['links'].append([0, si, ti])
+    # first input: only rows; what it describes on its own
+    classes1, rows1, text1 = [], [], []
+    for k in sorted(spec):
+        order = named.get(k)
+        mentioned = [p for p in (order if order is not None else range(len(spec[k]))) if spec[k][p][2] is not None]
+        names = [spec[k][p][0] for p in mentioned] if order is not None else ['_%d' % i for i in range(len(mentioned))]
+        classes1.append(dict(kind=k, attrs=[[n, spec[k][p][2]] for n, p in zip(names, mentioned)]))
+    for k, v in rows:
+        order = named.get(k)
+        mentioned = [p for p in (order if order is not None else range(len(spec[k]))) if spec[k][p][2] is not None]
+        lit = [[spec[k][p][0], spec[k][p][2]] for p in mentioned]
+        vals = [_literal_view(v[p], spec[k][p][1], spec[k][p][2]) for p in mentioned]
+        rows1.append(dict(kind=k, values=vals))
+        text1.append(G.sql_insert(k, lit, vals, named=list(range(len(lit))) if order is not None else None, style=0))
+    desc1 = dict(classes=classes1, assocs=[], ids=[], rows=rows1, links=[])
+    text2 = [G.sql_class(c) for c in classes2] + [G.sql_assoc(a) for a in desc2['assocs']] + [G.sql_identifier(i) for i in desc2['ids']]
+    return '\n'.join(text1), desc1, '\n'.join(text2), desc2
+
+
+RETYPED = {
+    'rows-then-retyped-schema': (
+        {'K': (['Enabled', 'BOOLEAN', 'INTEGER'], ['Level', 'REAL', 'INTEGER'], ['Name', 'STRING', 'STRING'], ['Count', 'INTEGER', 'INTEGER'],
+               ['Off', 'BOOLEAN', 'INTEGER']),
+         'L': (['Flow', 'REAL', 'INTEGER'], ['Ratio', 'REAL', 'REAL'], ['Id', 'UNIQUE_ID', 'UNIQUE_ID'])},
+        [('K', [True, 20.0, "it's", 3, False]), ('L', [15.0, 0.5, 2 ** 127]), ('K', [False, -7.0, '', -2 ** 70, True]),
+         ('K', [True, 0.0, 'x', 0, True]), ('L', [-1.0, -2.25, 1])],
+        {}, None),
+    'named-rows-then-retyped-schema': (
+        {'K': (['Name', 'STRING', 'STRING'], ['Extra', 'INTEGER', None], ['Enabled', 'BOOLEAN', 'INTEGER'], ['Level', 'REAL', 'INTEGER'],
+               ['Id', 'UNIQUE_ID', 'UNIQUE_ID'], ['More', 'STRING', None]),
+         'L': (['Open', 'BOOLEAN', 'INTEGER'],)},
+        [('K', ['a', None, True, 1.0, 5, None]), ('L', [False]), ('K', ["b''c", None, False, 0.0, 2 ** 64, None]), ('L', [True])],
+        {'K': [3, 0, 4, 2], 'L': [0]}, None),
+    'rows-then-retyped-schema-and-association': (
+        {'T': (['Level', 'REAL', 'INTEGER'], ['Lit', 'BOOLEAN', 'INTEGER'], ['Name', 'STRING', 'STRING']),
+         'S': (['Sid', 'INTEGER', 'INTEGER'], ['T_Level', 'REAL', 'INTEGER'], ['T_Lit', 'BOOLEAN', 'INTEGER'])},
+        [('T', [10.0, True, 't0']), ('T', [10.0, False, 't1']), ('T', [-3.0, True, 't2']),
+         ('S', [1, 10.0, False]), ('S', [2, -3.0, True]), ('S', [3, 10.0, False])],
+        {'S': [1, 2, 0]}, ('S', [1, 2], 'T', [0, 1])),
+}
+
+
 SCENARIOS = ('rows-cut-simple', 'schema-late', 'rows-cut-reflexive', 'rows-cut-assoc-class', 'class-late', 'rows-cut-chain',
-             'rows-cut-referred-late', 'rows-cut-double-key', 'rows-then-schema')
+             'rows-cut-referred-late', 'rows-cut-double-key', 'rows-then-schema', 'rows-then-retyped-schema',
+             'named-rows-then-retyped-schema', 'rows-then-retyped-schema-and-association', 'rows-cut-two-identifiers',
+             'rows-cut-crossed-key')
 EMPTY = dict(classes=[], assocs=[], ids=[], rows=[], links=[])
 
 
@@ -227,16 +323,29 @@ def snap_diff(before, after):
     return d
 
 
+def typed_walk(m):
+    """Every attribute read of every instance with the Python type of the value (1 is not True, 20 is not 20.0): used
+    only to compare a build with the build of a fresh loader fed the same inputs -- two runs of the same code that
+    differ in nothing but the history of the loader."""
+    out = {}
+    for mc in m.metaclasses.values():
+        out[mc.kind] = [[[n, type(getattr(inst, n)).__name__, repr(getattr(inst, n))] for n, _ in mc.attributes]
+                        for inst in m.select_many(mc.kind)]
+    return out
+
+
 _FRESH = {}
 
 
-def fresh_text(name, k, texts):
+def fresh_build(name, k, texts):
+    """(serialized text, typed walk) of the build of a fresh loader fed the first k inputs."""
     import xtuml
     if (name, k) not in _FRESH:
         l = xtuml.ModelLoader()
         for t in texts[:k]:
             l.input(t)
-        _FRESH[(name, k)] = xtuml.serialize(l.build_metamodel())
+        m = l.build_metamodel()
+        _FRESH[(name, k)] = (xtuml.serialize(m), typed_walk(m))
     return _FRESH[(name, k)]
 
 
@@ -270,11 +379,18 @@ def run_history(name, events):
                 out.append(('build-contains-exactly-accepted-input', dict(event=ei, inputs=fed, differences=[list(x) for x in d]),
                             'the build equals the description of the inputs accepted so far'))
             s = xtuml.serialize(m)
-            ref = fresh_text(name, fed, texts)
+            ref, ref_walk = fresh_build(name, fed, texts)
             if s != ref:
                 i = next((k for k, (x, y) in enumerate(zip(s, ref)) if x != y), min(len(s), len(ref)))
                 out.append(('build-equals-fresh-loader-build', dict(event=ei, inputs=fed, observed=s[max(0, i - 80):i + 80]),
                             ref[max(0, i - 80):i + 80]))
+            else:
+                walk = typed_walk(m)
+                if walk != ref_walk:
+                    kinds = [k for k in sorted(set(walk) | set(ref_walk)) if walk.get(k) != ref_walk.get(k)]
+                    out.append(('build-equals-fresh-loader-build',
+                                dict(event=ei, inputs=fed, typed_values=dict((k, walk.get(k)) for k in kinds)),
+                                dict(typed_values=dict((k, ref_walk.get(k)) for k in kinds))))
             why = 'unchanged-by-later-build'
         else:
             _, kind, j = ev
@@ -340,8 +456,11 @@ def histories(quick):
       shards=15, weight=1,
       bound='all arrangements of 2 inputs, 3 builds, 3 mutations on one loader (mutation only after a build; all shorter '
             'histories are prefixes, clauses evaluated after every event) x mutation-kind triples over 9 kinds (quick: 81 of '
-            'the 729 per arrangement, rotating so that all triples occur; thorough: all 729); mutated metamodel and the 9 '
-            'input scenarios (C01 shapes split into two inputs: rows cut, schema late, class late, rows before schema) rotate')
+            'the 729 per arrangement, rotating so that all triples occur; thorough: all 729); mutated metamodel and the 14 '
+            'input scenarios rotate (C01 shapes split into two inputs: rows cut -- also over two identifiers of one class '
+            'and a composite key with crossed names --, schema late, class late, rows before a schema of the inferred types, '
+            'positional / named rows before a schema that re-names and re-types their attributes (0/1 as BOOLEAN, whole '
+            'numbers as REAL, more attributes, other order), the same with an association over the re-typed attributes)')
 def histories_item(ctx):
     for i, (name, events) in enumerate(histories(ctx.quick)):
         if i % ctx.nshards != ctx.shard:
@@ -357,7 +476,7 @@ def histories_item(ctx):
 
 
 @item('scenario-sanity', stands_in_for=[], shards=1, weight=0,
-      bound='each of the 9 scenarios: fresh loader, build after 0, 1, 2 inputs equals the description (guards the oracle)')
+      bound='each of the 14 scenarios: fresh loader, build after 0, 1, 2 inputs equals the description (guards the oracle)')
 def scenario_sanity(ctx):
     for name in SCENARIOS:
         events = ['B', 'I', 'B', 'I', 'B']
